@@ -259,6 +259,32 @@ def attrhist_key(c):
         st if st in "EF" else f"{D.NAMES[c['fam']][int(st[1]) - 1]}=" for st in c["steps"])
 
 
+VM_PROBES = [(1.0, 4.0), (1.0, 0.5), (7.0, -2.0), (0.5, -4.5)]      # (kappa, mu): mu inside and outside [-pi, pi]
+
+
+def vmprobe_record(vc, rid, kappa, mu):
+    """von Mises outside its support [mu - pi, mu + pi] and at p = 0 / 1 (C05: cdf from 0 to 1, pdf zero
+    outside the support, x incl. negative and zero values, icdf at the ends)"""
+    d = vc.VonMisesDistribution(kappa=kappa, mu=mu)
+    lo, hi = mu - math.pi, mu + math.pi
+    left = np.array([lo - 3.0, lo - 0.5, lo - 1e-3] + ([0.0] if 0.0 < lo else []) + ([-1.0] if -1.0 < lo else []))
+    right = np.array([hi + 1e-3, hi + 0.5, hi + 3.0, mu + 6.0] + ([0.0] if 0.0 > hi else []))
+    with warnings.catch_warnings(), np.errstate(all="ignore"):
+        warnings.simplefilter("ignore")
+        Fl, Fr = np.asarray(d.cdf(left)), np.asarray(d.cdf(right))
+        fl, fr = np.asarray(d.pdf(left)), np.asarray(d.pdf(right))
+        g0, g1 = float(d.icdf(0.0)), float(d.icdf(1.0))
+    return dict(id=rid, kind="vmprobe", kappa=repr(kappa), mu=repr(mu),
+                cdfok=bool(np.all(Fl == 0) and np.all(Fr == 1)), pdfzero=bool(np.all(fl == 0) and np.all(fr == 0)),
+                icdfends=bool(abs(g0 - lo) <= 1e-12 * (1 + abs(lo)) and abs(g1 - hi) <= 1e-12 * (1 + abs(hi))),
+                seen=f"cdf left {Fl.min():.4g}..{Fl.max():.4g} right {Fr.min():.4g}..{Fr.max():.4g} "
+                     f"pdf outside up to {max(fl.max(), fr.max()):.4g} icdf(0)={g0} icdf(1)={g1}")
+
+
+def vmprobe_key(kappa, mu):
+    return f"VonMises outside-support probe kappa={kappa:g} mu={mu:g}"
+
+
 def hist_key(ops):
     return "history " + " ".join(f"new({o[1]})" if o[0] == "new" else f"eval(#{o[1]},{o[2]})" for o in ops)
 
@@ -648,7 +674,11 @@ def judge(ctx, vc, ocases, lcases, summary=True, hists=(), icases=(), ahists=())
              for i, c in enumerate(icases)]
     arecs = [attrhist_record(vc, len(recs) + len(lrecs) + len(hrecs) + len(irecs) + i + 1, c, ctx.seed)
              for i, c in enumerate(ahists)]
-    allrecs = recs + lrecs + hrecs + irecs + arecs
+    vrecs = []
+    if summary:
+        vrecs = [vmprobe_record(vc, len(recs) + len(lrecs) + len(hrecs) + len(irecs) + len(arecs) + i + 1, k_, m_)
+                 for i, (k_, m_) in enumerate(VM_PROBES)]
+    allrecs = recs + lrecs + hrecs + irecs + arecs + vrecs
     if summary:
         allrecs.append(dict(id=len(allrecs) + 1, kind="summary", tier=ctx.tier, nhist=len(hists), attrfit=not ctx.quick))
     failing = ctx.validate("Trace_C05", "Trace_C05.cfg", allrecs, xss="256m")
@@ -665,6 +695,10 @@ def judge(ctx, vc, ocases, lcases, summary=True, hists=(), icases=(), ahists=())
             ctx.violation(clause, int_override_key(c),
                           f"outcome={r['outcome']} instance={r['outcomeinst']} same={r['same']} "
                           f"shapeok={r['shapeok']} rel={r['relq']}e-15", replay=dict(kind="intoverride", case=c))
+    for (k_, m_), r in zip(VM_PROBES, vrecs):
+        ctx.case(vmprobe_key(k_, m_))
+        for clause in failing.get(r["id"], []):
+            ctx.violation(clause, vmprobe_key(k_, m_), r["seen"], replay=dict(kind="vmprobe", case=[k_, m_]))
     for c, r in zip(ahists, arecs):
         ctx.case(attrhist_key(c), nontrivial=any(st not in ("E",) for st in c["steps"]))
         for clause in failing.get(r["id"], []):
@@ -816,8 +850,9 @@ def run(ctx):
                    "(von Mises cdf as Fourier series of the documented pdf, cross-checked by quadrature)",
                    "scipy.special inverse functions only to PLACE grid points",
                    "harness/c05.py fixed-point projection (probabilities 1e-9, relative errors 1e-12)"]
-    ctx.assumptions = ["von Mises: the table is restricted to one period [mu-pi, mu+pi] (the documented formula "
-                       "states no behaviour outside it; scipy continues the cdf beyond 1)",
+    ctx.assumptions = ["von Mises: the law tables are restricted to one period [mu-pi, mu+pi] (the documented circular density "
+                       "states no behaviour outside it; scipy continues the cdf periodically beyond [0, 1]: convention); four "
+                       "fixed probes judge icdf(0) = mu - pi and icdf(1) = mu + pi (IcdfEndpoints, D99)",
                        "generalised gamma: (lambda x)^c as in Ochi (1992) is taken as the documented formula "
                        "(the docstring prints lambda x^c)",
                        "pdf derivative clause only at grid points with 0.01 <= F <= 0.99 and pdf*IQR <= 1000",
@@ -886,6 +921,10 @@ def replay(ctx, case):
         judge(ctx, vc, [], [], summary=False, icases=[c["case"]])
     elif c["kind"] == "hist":
         judge(ctx, vc, [], [], summary=False, hists=[c["case"]])
+    elif c["kind"] == "vmprobe":
+        r = vmprobe_record(vc, 1, *c["case"])
+        for clause in ctx.validate("Trace_C05", "Trace_C05.cfg", [r]).get(1, []):
+            ctx.violation(clause, vmprobe_key(*c["case"]), r["seen"], replay=c)
     elif c["kind"] == "attrhist":
         judge(ctx, vc, [], [], summary=False, ahists=[c["case"]])
     else:
